@@ -85,8 +85,25 @@ def memo_findings(fn_node: ast.AST) -> list:
                 reads.add(norm(c))
     out = []
 
+    def value_nodes(e):
+        """sub-expressions whose VALUE can flow into the value of e: comparisons and the tests of conditional expressions only
+        yield / select, they do not pass the stored value on"""
+        todo = [e]
+        while todo:
+            x = todo.pop()
+            yield x
+            if isinstance(x, ast.Compare):
+                continue
+            for f_, v in ast.iter_fields(x):
+                if isinstance(x, ast.IfExp) and f_ == "test":
+                    continue
+                if isinstance(v, ast.AST):
+                    todo.append(v)
+                elif isinstance(v, list):
+                    todo.extend(y for y in v if isinstance(y, ast.AST))
+
     def reads_cont(e, cont):
-        for x in ast.walk(e):
+        for x in value_nodes(e):
             if isinstance(x, ast.Subscript) and isinstance(x.ctx, ast.Load) and norm(x.value) == cont:
                 return True
             if isinstance(x, ast.Call) and isinstance(x.func, ast.Attribute) and x.func.attr in ("get", "setdefault", "pop") and norm(x.func.value) == cont:
@@ -104,13 +121,13 @@ def memo_findings(fn_node: ast.AST) -> list:
                 if nm in fed:
                     continue
                 for v in vals:
-                    if reads_cont(v, cont) or any(isinstance(x, ast.Name) and x.id in fed for x in ast.walk(v)):
+                    if reads_cont(v, cont) or any(isinstance(x, ast.Name) and x.id in fed for x in value_nodes(v)):
                         fed.add(nm)
                         changed = True
                         break
         for r in ast.walk(fn_node):
             if isinstance(r, ast.Return) and r.value is not None:
-                if reads_cont(r.value, cont) or any(isinstance(x, ast.Name) and x.id in fed for x in ast.walk(r.value)):
+                if reads_cont(r.value, cont) or any(isinstance(x, ast.Name) and x.id in fed for x in value_nodes(r.value)):
                     return True
         return False
     for cont, key, val, stmt in stores:
